@@ -243,6 +243,37 @@ theorem unaryUnion_functional {E : OverlayEngine} (hE : OverlayFunctional E) (to
   obtain ⟨s', hs', rfl⟩ := h'
   rw [hE _ _ _ _ _ _ hs hs']
 
+/-- `earcut_triangles` is determined by the engine's index list -/
+theorem earcut_functional {E : EarcutEngine} (hE : ∀ v h o o', E v h o → E v h o' → o = o') (p : Poly)
+    (o o' : List Tri3) (h : EarcutTriangles E p o) (h' : EarcutTriangles E p o') : o = o' := by
+  obtain ⟨s, hs, rfl⟩ := h
+  obtain ⟨s', hs', rfl⟩ := h'
+  rw [hE _ _ _ _ hs hs']
+
+/-- one triangle per complete index triple, nothing else -/
+theorem popTriangles_length (verts : List Rat) :
+    ∀ idx : List Nat, (popTriangles verts idx).length = idx.length / 3
+  | [] => by simp [popTriangles]
+  | [_] => by simp [popTriangles]
+  | [_, _] => by simp [popTriangles]
+  | _ :: _ :: _ :: r => by
+    simp only [popTriangles, List.length_cons, popTriangles_length verts r]
+    omega
+
+theorem trianglesOfIndices_length (verts : List Rat) (idx : List Nat) :
+    (trianglesOfIndices verts idx).length = idx.length / 3 := by
+  simp [trianglesOfIndices, popTriangles_length]
+
+/-- `constrained_triangulation` keeps the engine's order: it is a sub-sequence of the outer
+triangulation -/
+theorem constrainedOfOuter_sublist (inside : Tri3 → Bool) (outer : List Tri3) :
+    (constrainedOfOuter inside outer).Sublist outer :=
+  List.filter_sublist
+
+theorem trianglesOfFaces_getElem? (faces : List Tri3) (i : Nat) :
+    (trianglesOfFaces faces)[i]? = faces[i]? := by
+  simp [trianglesOfFaces]
+
 /-- non-vacuity: an engine that returns its subject as one shape is functional, and the glue then
 returns exactly one polygon -/
 example : ∃ o, BoolOp (fun s _ _ _ o => o = [s]) id [⟨sq 0 0, []⟩] [] .union o ∧ o.length = 1 :=
